@@ -109,6 +109,21 @@ class IndexDomain(ArrNormDomain):
         return NormDomain.to_int(self, v, node)
 
     def call_ext(self, dotted, args, kwargs, node):
+        if dotted == 'numpy.einsum' and len(args) in (2, 3) and not (set(kwargs) - {'dtype', 'optimize'}):
+            # one operand contracted over some of its axes: einsum('abcd->ac', v) or einsum(v, [0, 1, 2, 3], [0, 2]).  Unlike ndarray.sum,
+            # einsum accumulates in the operand's own element type unless dtype= says otherwise (no widening of narrow integers).
+            v = ins = out = None
+            if isinstance(args[0], Const) and isinstance(args[0].v, str) and len(args) == 2 and isinstance(args[1], Shaped) and '->' in args[0].v and ',' not in args[0].v and '.' not in args[0].v:
+                v = args[1]
+                ins, out = [list(s_) for s_ in args[0].v.replace(' ', '').split('->')]
+            elif isinstance(args[0], Shaped) and len(args) == 3 and all(isinstance(a, Tup) and all(isinstance(c, Const) and isinstance(c.v, int) for c in a.items) for a in args[1:]):
+                v = args[0]
+                ins, out = [c.v for c in args[1].items], [c.v for c in args[2].items]
+            if v is not None and len(ins) == len(v.shape.items) and len(set(ins)) == len(ins) and set(out) <= set(ins) and len(set(out)) == len(out):
+                axes = [i for i, c in enumerate(ins) if c not in out]
+                dt = kwargs.get('dtype')
+                self.interp.emit('reduce', which='einsum', target=v, axes=axes, lengths=[v.shape.items[a] for a in axes], node=node, dtype=dt if dt is not None else DTypeOf(v))
+                return Shaped(Tup([v.shape.items[ins.index(c)] for c in out]), v.label, origin=('reduce', 'einsum', v, axes))
         if dotted in ('numpy.moveaxis', 'numpy.swapaxes') and len(args) == 3 and isinstance(args[0], Shaped) and len(args[0].shape.items) == 2 \
                 and all(isinstance(a, Const) and isinstance(a.v, int) for a in args[1:]):
             v = args[0]
